@@ -99,6 +99,18 @@ theorem no_skip (steps : List Step) :
   have h := inv_run inv_init steps
   exact ⟨fun d hd => (h.disp d hd).below, fun d hd => (h.zomb d hd).below⟩
 
+/-- The resume point after a restart or a controller change never passes an undelivered
+operation — whatever backlog there is at that moment (operations committed between an event and
+the PUBLISH_ACTIVITY entry that records it, publish failures, earlier restarts). `no_skip` for
+runs that end with the step that starts the new dispatcher; stated separately because this is
+where the rule of `fsm.go` — store `PublishActivityOp.RaftIndex`, not the position of the
+bookkeeping entry (regenerated: `applyStoresArg`) — is needed. -/
+theorem resume_never_skips (steps : List Step) (st : Step)
+    (_hst : st = .restart ∨ ∃ view linger, st = .leaderChange view linger) :
+    let s := run (init false) (steps ++ [st])
+    ∀ d, s.dispatcher = some d → ∀ j, j < d.next → evAt s.raft j = true → j ∈ ids s :=
+  (no_skip (steps ++ [st])).1
+
 /-- No gaps: when an event is in the stream, the events of all earlier event-bearing operations
 are in the stream too. -/
 theorem no_gap (steps : List Step) :
@@ -222,6 +234,21 @@ def demo : List Step :=
    .dispatch 0 .pubFail, .dispatch 0 .appended, .dispatch 0 .ok, .dispatch 0 .ok,
    .leaderChange none true, .dispatch 1 .appended, .dispatch 0 .ok, .dispatch 0 .ok,
    .snapshot 5 1, .restart, .dispatch 0 .ok]
+
+/-- A backlog at the restart: three operations (indices 1–3), the first is delivered and recorded
+(record entry at index 4), then the controller restarts. The new dispatcher resumes at index 2 —
+after the recorded EVENT, not after the record ENTRY (that would be 5, past the undelivered
+operations 2 and 3) — and three more iterations deliver the rest (the fourth entry is skipped). -/
+def backlogRestart : List Step :=
+  [.leaderChange none false, .commit {}, .commit { op := 6 }, .commit { op := 5 }, .dispatch 0 .ok, .restart]
+
+example : (run (init false) backlogRestart).raft.length = 4 ∧
+    (run (init false) backlogRestart).lastPublished = 1 ∧
+    (run (init false) backlogRestart).dispatcher = some { next := 2, holding := false } := by decide
+example : ids (drive 2 (run (init false) backlogRestart)) = [1, 2, 3] := by decide
+/-- the same across a controller change, the old goroutine still around -/
+example : (run (init false) (backlogRestart.dropLast ++ [.leaderChange none true])).dispatcher
+    = some { next := 2, holding := false } := by decide
 
 example : ids (run (init false) demo) = [1, 1, 3, 3, 1] := by decide
 example : firsts (ids (run (init false) demo)) = [1, 3] := by decide
